@@ -1,10 +1,44 @@
 (* C01 — every request is answered with its own reply, in issue order.  Statements only. *)
-From MPD Require Import Bytes Tables LoopModel LoopProofs.
+From MPD Require Import Bytes Tables BuilderModel LoopModel LoopProofs LoopSpec LoopSpecProofs.
 Open Scope N_scope.
 
-Theorem c01_placeholder : forall wf p i p' outs bs,
-  cstep wf p i = (p', outs) -> In (OWrite bs) outs ->
-  bs = idle_line \/ bs = noidle_line \/
-  (exists q, (p = PCancel q \/ i = InCmd (Some q)) /\ bs = q_bytes q).
-Proof. exact cstep_writes. Qed.
-Print Assumptions c01_placeholder.
+(* for EVERY schedule: whatever a responder is handed is the server's reply to the bytes of a request
+   that was issued with that responder's id - never an idle/noidle reply, never another request's *)
+Theorem c01_own_reply : forall reply_fn sch id x,
+  Forall wf_label sch -> In (id, x) (a_replies (arun reply_fn sch)) ->
+  exists q, In q (a_issued (arun reply_fn sch)) /\ q_id q = id /\ x = reply_fn (q_bytes q).
+Proof. exact own_reply. Qed.
+
+(* requests reach the wire in the order they were issued: written ++ held ++ queued = issued *)
+Theorem c01_issue_order : forall reply_fn sch,
+  Forall wf_label sch ->
+  a_sent (arun reply_fn sch) ++ held (a_pt (arun reply_fn sch)) ++ a_queue (arun reply_fn sch) = a_issued (arun reply_fn sch).
+Proof. exact fifo. Qed.
+
+(* a list failing part-way: the caller gets the error with exactly the completed frames (the
+   builder keeps completed frames and drops the partial one), a single command gets no frames *)
+Theorem c01_partial_failure : forall cur done e,
+  split_list (b_error (ListInProgress cur done) e) = CRAck e done /\
+  split_single (b_error (InProgress cur) e) = CRAck e [].
+Proof. intros; split; reflexivity. Qed.
+
+Theorem c01_success_frames : forall cur done,
+  split_list (b_finish (ListInProgress cur done)) = CROk done.
+Proof. reflexivity. Qed.
+
+(* cancellation is invisible to the loop: its step function has no input describing whether a
+   caller still listens, so the replies of the others cannot depend on it *)
+Theorem c01_step_ignores_liveness : forall wf p i, exists p' outs, cstep wf p i = (p', outs).
+Proof. intros. destruct (cstep wf p i) as [p' outs]. eauto. Qed.
+
+Example c01_two_callers :
+  let q1 := mkReq 1 (b "status" ++ [LF]) in
+  let q2 := mkReq 2 (b "stats" ++ [LF]) in
+  let rf := fun bs => mkResp [mkFrame [(b "echo", bs)] None] None in
+  let s := arun rf [LIssue q1; LIssue q2; LServe; LTake; LServe; LRecv; LServe; LRecv; LTake; LServe; LRecv] in
+  a_replies s = [(1, rf (q_bytes q1)); (2, rf (q_bytes q2))] /\ a_sent s = [q1; q2].
+Proof. vm_compute. auto. Qed.
+
+Print Assumptions c01_own_reply.
+Print Assumptions c01_issue_order.
+Print Assumptions c01_partial_failure.
